@@ -869,7 +869,22 @@ def rule_res(ctx) -> None:
         bad = None
         for d in ds:
             v = d.value
-            base = v.value if isinstance(v, ast.Subscript) and isinstance(v.slice, ast.Slice) and v.slice.lower is None and v.slice.step is None else v
+            base = v
+            for _ in range(6):   # order-preserving wrappers: R[:n], list(R) / tuple(R), R.copy(), a local bound once to one of these
+                if isinstance(base, ast.Subscript) and isinstance(base.slice, ast.Slice) and base.slice.lower is None and base.slice.step is None:
+                    base = base.value
+                elif isinstance(base, ast.Call) and dotted(base.func) in ("list", "tuple") and len(base.args) == 1 and not base.keywords:
+                    base = base.args[0]
+                elif isinstance(base, ast.Call) and isinstance(base.func, ast.Attribute) and base.func.attr == "copy" and not base.args:
+                    base = base.func.value
+                elif isinstance(base, ast.Name) and base.id not in rnames:
+                    one = [x for x in rd.reaching(base.id, d.node) if x.kind != "mutate"]
+                    if len(one) == 1 and one[0].value is not None and one[0].kind == "assign":
+                        base = one[0].value
+                    else:
+                        break
+                else:
+                    break
             if not (isinstance(base, ast.Name) and base.id in rnames):
                 bad = bad or (d, f"`{src(v)[:40] if v is not None else d.kind}` is not a prefix of `{sorted(rnames)[0]}`, the list the stage returns")
                 continue
